@@ -633,6 +633,9 @@ class Parser:
                 if ftype == a.name:
                     n += 1
                     ftype = a.type_name
+                    # one step at a time: the new name is looked up from the top again
+                    # (native types first), not matched against the remaining aliases
+                    break
 
             if ftype == prev:
                 raise RTMASyntaxError(f"Unable to resolve alias {alias}: {ftype}")
